@@ -29,6 +29,8 @@ def run(ctx, info):
     kl += rest if ctx.tier == 'thorough' else rng.sample(rest, 500)
     for t in kl:
         cases.append((t, rng.choice(gen.ROOTS6), ''))
+    # every construct inside every context (deterministic pairwise nesting)
+    cases += [(t, r if r in gen.ROOTS6 else 'doc', '') for _, t, r in gen.pairwise_docs()]
     reals = e2e.tie_convert(ctx, drv, cases, failures)
     nexc = 0
     known = {}
